@@ -415,7 +415,7 @@ Section Tunnel.
   Qed.
 
   (* ---------- the listener on a run of messages ---------- *)
-  Definition is_msg (fd:bool) (fr:cframe) (M:list N) : Prop := exists ts b, M = msg_bytes fd fr ts b /\ 16 <= blen b.
+  Definition is_msg (fd:bool) (fr:cframe) (M:list N) : Prop := exists ts b, M = msg_bytes fd fr ts b /\ 16 <= blen b /\ normal b.
   Fixpoint total_len (frs:list cframe) : N := match frs with [] => 0 | fr :: r => msg_len fr + total_len r end.
   (* the frames written for a list of frames, starting from frame state fs *)
   Fixpoint frames_out (fd:bool) (fs:fstate) (frs:list cframe) : list (list N) :=
@@ -437,7 +437,7 @@ Section Tunnel.
       replace (mpb <? msg_length) with false by (symmetry; apply N.ltb_ge; lia). cbn [negb]. rewrite app_nil_r. reflexivity.
     - destruct fuel as [|k]; [cbn in Hfuel; lia|].
       revert Htot Hfit IH. inversion HM as [|? M ? Ms' HisM HM']; subst. inversion Hok as [|? ? Hok1 Hok']; subst. inversion Hsff as [|? ? Hsff1 Hsff']; subst. intros Htot Hfit IH.
-      destruct HisM as [ts [b [HMeq Hb]]].
+      destruct HisM as [ts [b [HMeq [Hb _]]]].
       cbn [List.concat] in Hsub. rewrite <- app_assoc in Hsub. cbn [total_len] in Htot.
       assert (V : msg_vals fd fr (sub pdu (proc + mpb))) by (rewrite Hsub, HMeq; apply msg_values; assumption).
       rewrite (lloop_step fd pdu proc msg_length k mpb fs acc fr Hlen Hfit Hok1 Hsff1 V) by (first [lia|exact Hd]).
@@ -494,7 +494,7 @@ Section Tunnel.
       replace ((cfl + msg_len fr) mod 2 ^ 16) with (cfl + msg_len fr) by (symmetry; apply N.mod_small; lia).
       destruct (IH pdu' (off + msg_len fr) (cfl + msg_len fr) Hn' Hlen' Hok') as [Ms [HMs Hrun]]; [lia|lia|].
       exists (M :: Ms). split.
-      + constructor; [|exact HMs]. exists ts, (sub pdu off). split; [reflexivity|rewrite HbS; lia].
+      + constructor; [|exact HMs]. exists ts, (sub pdu off). split; [reflexivity|split; [rewrite HbS; lia|apply normal_skipn'; exact Hn]].
       + rewrite Hrun. f_equal. f_equal; [|f_equal; lia].
         cbn [List.concat]. rewrite <- !app_assoc.
         assert (Hf : firstn (N.to_nat (off + msg_len fr)) pdu' = firstn (N.to_nat off) pdu ++ M).
@@ -507,5 +507,179 @@ Section Tunnel.
         replace (N.to_nat (off + msg_len fr + total_len (map fst frs)) - List.length (firstn (N.to_nat off) pdu ++ M))%nat
           with (N.to_nat (total_len (map fst frs))) by (rewrite app_length; lia).
         rewrite HR, skipn_skipn_plus. f_equal. lia.
+  Qed.
+
+  (* ---------- the control format header ---------- *)
+  Definition cfS (tscf:bool) : sformat := if tscf then spec_Tscf else spec_Ntscf.
+  Definition cf_hl (tscf:bool) : N := if tscf then 24 else 12.
+  Definition cf_len_name (tscf:bool) : string := if tscf then "AVTP_TSCF_FIELD_STREAM_DATA_LENGTH" else "AVTP_NTSCF_FIELD_NTSCF_DATA_LENGTH".
+  Definition cf_sub_name (tscf:bool) : string := if tscf then "AVTP_TSCF_FIELD_SUBTYPE" else "AVTP_NTSCF_FIELD_SUBTYPE".
+  Definition cf_init_sets (tscf:bool) (seq:N) : list (string * N) :=
+    if tscf then [("AVTP_TSCF_FIELD_TU", 0); ("AVTP_TSCF_FIELD_SEQUENCE_NUM", seq); ("AVTP_TSCF_FIELD_STREAM_ID", STREAM_ID)]
+    else [("AVTP_NTSCF_FIELD_SEQUENCE_NUM", seq); ("AVTP_NTSCF_FIELD_STREAM_ID", STREAM_ID)].
+  Definition cf_canon (tscf:bool) : buf := match canonical_header (cfS tscf) with Some h => h | None => [] end.
+  Definition cf_hdr (tscf:bool) (seq:N) (b:buf) : buf :=
+    set_all (cfS tscf) (cf_init_sets tscf seq) (cf_canon tscf ++ skipn (N.to_nat (cf_hl tscf)) b).
+  Lemma cfS_in tscf : In (cfS tscf) all_specs.
+  Proof. destruct tscf; vm_compute; tauto. Qed.
+  Lemma cf_hl_ok tscf : sp_hdr_len (cfS tscf) = cf_hl tscf.
+  Proof. destruct tscf; reflexivity. Qed.
+  Lemma cf_canon_len tscf : N.of_nat (List.length (cf_canon tscf)) = cf_hl tscf.
+  Proof. destruct tscf; reflexivity. Qed.
+
+  Lemma skipn_zero_prefix b n : N.of_nat n <= blen b -> skipn n (upd b 0 (repeat 0 n)) = skipn n b.
+  Proof.
+    intros H. rewrite upd_as_app by (rewrite repeat_length; lia). cbn [N.to_nat firstn app]. rewrite repeat_length.
+    rewrite skipn_app, repeat_length. rewrite skipn_all2 by (rewrite repeat_length; lia). rewrite Nat.sub_diag. reflexivity.
+  Qed.
+
+  Lemma init_cf_exact tscf seq b : normal b -> cf_hl tscf <= blen b ->
+    init_cf LD ST tscf seq b = Ok (cf_hdr tscf seq b, cf_hl tscf).
+  Proof.
+    intros Hn Hb. unfold init_cf, only, cf_hdr.
+    assert (G : forall s h hl l, In s all_specs -> canonical_header s = Some h -> sp_init s <> "" -> sp_hdr_len s = hl -> hl <= blen b ->
+                forallb (fun nv => name_ok s (fst nv)) l = true ->
+                Paths.bind (zero hl b) (fun b1 => Paths.bind (finit LD ST s b1) (sets LD ST s l)) = Ok (set_all s l (h ++ skipn (N.to_nat hl) b))).
+    { intros s h hl l Hs Hc Hi Hh Hhl Hl. rewrite zero_exact by exact Hhl. cbn [Paths.bind].
+      set (b0 := upd b 0 (repeat 0 (N.to_nat hl))).
+      assert (Hn0 : normal b0) by (apply normal_upd; [exact Hn|apply normal_repeat; lia]).
+      assert (Hb0 : blen b0 = blen b) by apply blen_upd.
+      rewrite (finit_exact s h b0 Hs Hc Hi Hn0) by (rewrite Hb0, Hh; exact Hhl). cbn [Paths.bind]. rewrite Hh.
+      unfold b0. rewrite skipn_zero_prefix by (rewrite Nnat.N2Nat.id; exact Hhl).
+      assert (Hlh : N.of_nat (List.length h) = hl).
+      { destruct (layout s Hs) as [h' [Hc' [Hlen' _]]]. rewrite Hc in Hc'. inversion Hc'; subst h'. unfold blen in Hlen'. lia. }
+      apply sets_exact; [exact Hs|exact Hl| |].
+      - apply normal_app; [|apply normal_skipn'; exact Hn]. destruct (layout s Hs) as [h' [Hc' [_ [Hnh _]]]]. rewrite Hc in Hc'. inversion Hc'; subst h'. exact Hnh.
+      - unfold blen in *. rewrite app_length, skipn_length. lia. }
+    destruct tscf; cbn [cf_hl cfS cf_init_sets cf_canon] in *.
+    - rewrite (G spec_Tscf (cf_canon true) 24) by (first [vm_compute; tauto | reflexivity | discriminate | exact Hb]). reflexivity.
+    - rewrite (G spec_Ntscf (cf_canon false) 12) by (first [vm_compute; tauto | reflexivity | discriminate | exact Hb]). reflexivity.
+  Qed.
+
+  (* ---------- the whole packet ---------- *)
+  Lemma concat_len fd : forall frs Ms, Forall2 (is_msg fd) frs Ms -> Forall (frame_ok fd) frs ->
+    N.of_nat (List.length (List.concat Ms)) = total_len frs.
+  Proof.
+    induction 1 as [|fr M frs Ms HM _ IH]; intros Hok; [reflexivity|]. inversion Hok; subst.
+    cbn [List.concat total_len]. rewrite app_length. destruct HM as [ts [b [-> [Hb _]]]].
+    rewrite Nnat.Nat2N.inj_add, (len_msg_bytes fd fr ts b) by assumption. rewrite IH by assumption. reflexivity.
+  Qed.
+  Lemma normal_concat_msgs fd : forall frs Ms, Forall2 (is_msg fd) frs Ms -> Forall (frame_ok fd) frs -> normal (List.concat Ms).
+  Proof.
+    induction 1 as [|fr M frs Ms HM _ IH]; intros Hok; [constructor|]. inversion Hok as [|? ? Hok1 Hok']; subst.
+    cbn [List.concat]. apply normal_app; [|apply IH; exact Hok']. destruct HM as [ts [b [-> [Hb Hnb]]]]. apply normal_msg_bytes; assumption.
+  Qed.
+  Lemma firstn_exact {A} (l r:list A) : firstn (List.length l) (l ++ r) = l.
+  Proof. rewrite firstn_app, Nat.sub_diag, firstn_all. cbn [firstn]. apply app_nil_r. Qed.
+
+  Lemma cf_names_ok tscf : name_ok (cfS tscf) (cf_len_name tscf) = true /\ name_ok (cfS tscf) (cf_sub_name tscf) = true /\
+    cf_sub_name tscf <> cf_len_name tscf /\ forallb (fun nv => name_ok (cfS tscf) (fst nv)) (cf_init_sets tscf 0) = true.
+  Proof. destruct tscf; repeat split; try reflexivity; discriminate. Qed.
+  Lemma cf_init_sets_ok tscf seq : forallb (fun nv => name_ok (cfS tscf) (fst nv)) (cf_init_sets tscf seq) = true.
+  Proof. destruct tscf; reflexivity. Qed.
+
+  Theorem talker_structure (udp tscf fd:bool) seq udpseq frs pdu :
+    normal pdu -> blen pdu = 1500 -> Forall (frame_ok fd) (map fst frs) ->
+    (if udp then 4 else 0) + cf_hl tscf + total_len (map fst frs) <= 1500 ->
+    exists U Hd Ms pdu', talker_packet LD ST udp tscf fd seq udpseq frs pdu = Ok (U ++ Hd ++ List.concat Ms, pdu') /\
+      N.of_nat (List.length U) = (if udp then 4 else 0) /\ N.of_nat (List.length Hd) = cf_hl tscf /\
+      Forall2 (is_msg fd) (map fst frs) Ms /\
+      (forall rest, ref_get (cfS tscf) (cf_sub_name tscf) (Hd ++ rest) = if tscf then 5 else 0x82) /\
+      (forall rest, ref_get (cfS tscf) (cf_len_name tscf) (Hd ++ rest) = total_len (map fst frs)).
+  Proof.
+    intros Hn Hlen Hok Hfit. set (T := total_len (map fst frs)) in *. set (hl := cf_hl tscf) in *.
+    assert (Hhl : hl = 12 \/ hl = 24) by (unfold hl, cf_hl; destruct tscf; [right|left]; reflexivity).
+    unfold talker_packet.
+    (* encapsulation header *)
+    assert (H0 : exists pdu1, (if udp then Paths.bind (at_off pdu 0 (fun b => only (fsetf LD ST spec_Udp "AVTP_UDP_FIELD_ENCAPSULATION_SEQ_NO" udpseq b) tt))
+                                            (fun r => Ok (fst r, 4)) else Ok (pdu, 0)) = Ok (pdu1, if udp then 4 else 0) /\ normal pdu1 /\ blen pdu1 = 1500).
+    { destruct udp; [|exists pdu; repeat split; assumption].
+      unfold at_off, only, sub. cbn [N.to_nat skipn firstn app].
+      rewrite (fsetf_exact E spec_Udp) by (first [vm_compute; tauto | reflexivity | exact Hn | (rewrite Hlen; cbn; lia)]).
+      cbn [Paths.bind fst snd]. eexists. split; [reflexivity|]. split; [apply FieldOpsProofs.normal_ref_set; exact Hn|rewrite FieldOpsProofs.blen_ref_set; exact Hlen]. }
+    destruct H0 as [pdu1 [H0 [Hn1 Hlen1]]]. rewrite H0. cbn [Paths.bind fst snd]. clear H0.
+    set (cf_off := if udp then 4 else 0) in *.
+    assert (Hco : cf_off <= 4) by (unfold cf_off; destruct udp; lia).
+    (* control header *)
+    unfold at_off at 1.
+    assert (HbS : blen (sub pdu1 cf_off) = 1500 - cf_off) by (rewrite blen_sub, Hlen1; reflexivity).
+    rewrite (init_cf_exact tscf seq (sub pdu1 cf_off)) by (first [apply normal_skipn'; exact Hn1 | (rewrite HbS; fold hl; lia)]).
+    cbn [Paths.bind fst snd]. fold hl.
+    set (Hb := cf_hdr tscf seq (sub pdu1 cf_off)).
+    assert (HnHb : normal Hb).
+    { unfold Hb, cf_hdr. apply normal_set_all. apply normal_app; [destruct tscf; vm_compute; repeat constructor|apply normal_skipn'; apply normal_skipn'; exact Hn1]. }
+    assert (HbHb : blen Hb = 1500 - cf_off).
+    { unfold Hb, cf_hdr. rewrite blen_set_all. unfold blen. rewrite app_length, skipn_length. pose proof (cf_canon_len tscf) as Hc. fold hl in Hc.
+      unfold blen in HbS. fold hl. lia. }
+    set (pdu1' := firstn (N.to_nat cf_off) pdu1 ++ Hb).
+    assert (HA : List.length (firstn (N.to_nat cf_off) pdu1) = N.to_nat cf_off) by (rewrite firstn_length; unfold blen in Hlen1; lia).
+    assert (Hn1' : normal pdu1') by (unfold pdu1'; apply normal_app; [apply normal_firstn'; exact Hn1|exact HnHb]).
+    assert (Hlen1' : blen pdu1' = 1500) by (unfold pdu1', blen; rewrite app_length, HA; unfold blen in HbHb; lia).
+    (* messages *)
+    destruct (add_msgs_exact fd frs pdu1' (cf_off + hl) hl Hn1' Hlen1' Hok) as [Ms [HMs Hadd]]; [fold T; lia|lia|].
+    rewrite Hadd. cbn [Paths.bind fst snd]. fold T. clear Hadd.
+    pose proof (concat_len fd _ _ HMs Hok) as HcL. fold T in HcL.
+    set (Hd0 := firstn (N.to_nat hl) Hb).
+    assert (HHd0 : List.length Hd0 = N.to_nat hl) by (unfold Hd0; rewrite firstn_length; unfold blen in HbHb; lia).
+    assert (Hpre : firstn (N.to_nat (cf_off + hl)) pdu1' = firstn (N.to_nat cf_off) pdu1 ++ Hd0).
+    { unfold pdu1'. rewrite firstn_app, HA. rewrite firstn_all2 by lia. f_equal. unfold Hd0. f_equal. lia. }
+    rewrite Hpre.
+    set (tl0 := skipn (N.to_nat (cf_off + hl + T)) pdu1').
+    set (pdu2 := (firstn (N.to_nat cf_off) pdu1 ++ Hd0) ++ List.concat Ms ++ tl0).
+    (* the data length *)
+    assert (Hsub2 : sub pdu2 cf_off = Hd0 ++ List.concat Ms ++ tl0).
+    { unfold pdu2. rewrite <- app_assoc. set (A := firstn (N.to_nat cf_off) pdu1) in *.
+      replace cf_off with (N.of_nat (List.length A)) by (rewrite HA; lia). apply sub_app_len. }
+    assert (Hnt : normal tl0) by (unfold tl0; apply normal_skipn'; exact Hn1').
+    assert (HnMs : normal (List.concat Ms)) by (apply (normal_concat_msgs fd _ _ HMs Hok)).
+    set (A := firstn (N.to_nat cf_off) pdu1) in *.
+    set (W := Hd0 ++ List.concat Ms ++ tl0) in *.
+    assert (HnW : normal W) by (unfold W; apply normal_app; [unfold Hd0; apply normal_firstn'; exact HnHb|apply normal_app; assumption]).
+    assert (Htl : List.length tl0 = (1500 - N.to_nat (cf_off + hl + T))%nat) by (unfold tl0; rewrite skipn_length; unfold blen in Hlen1'; lia).
+    assert (HbW : blen W = 1500 - cf_off) by (unfold W, blen; rewrite !app_length, HHd0, Htl; lia).
+    destruct (cf_names_ok tscf) as [HokL [HokS [Hne _]]].
+    pose proof (cfS_in tscf) as HSin. pose proof (cf_hl_ok tscf) as HShl. fold hl in HShl.
+    unfold at_off. rewrite Hsub2.
+    assert (Hset : (if tscf then fsetf LD ST spec_Tscf "AVTP_TSCF_FIELD_STREAM_DATA_LENGTH" (hl + T - 24) W
+                    else fsetf LD ST spec_Ntscf "AVTP_NTSCF_FIELD_NTSCF_DATA_LENGTH" (hl + T - 12) W) = Ok (ref_set (cfS tscf) (cf_len_name tscf) T W)).
+    { replace (if tscf then fsetf LD ST spec_Tscf "AVTP_TSCF_FIELD_STREAM_DATA_LENGTH" (hl + T - 24) W else fsetf LD ST spec_Ntscf "AVTP_NTSCF_FIELD_NTSCF_DATA_LENGTH" (hl + T - 12) W)
+        with (fsetf LD ST (cfS tscf) (cf_len_name tscf) T W)
+        by (unfold hl, cf_hl; destruct tscf; cbn [cfS cf_len_name]; f_equal; lia).
+      apply (fsetf_exact E (cfS tscf) HSin); [exact HokL|exact HnW|rewrite HShl, HbW; lia]. }
+    unfold only. rewrite Hset. cbn [Paths.bind fst snd]. clear Hset.
+    set (Y := ref_set (cfS tscf) (cf_len_name tscf) T W).
+    assert (HnY : normal Y) by (apply FieldOpsProofs.normal_ref_set; exact HnW).
+    assert (HbY : blen Y = 1500 - cf_off) by (unfold Y; rewrite FieldOpsProofs.blen_ref_set; exact HbW).
+    assert (HfA : firstn (N.to_nat cf_off) pdu2 = A).
+    { unfold pdu2. rewrite <- !app_assoc. replace (N.to_nat cf_off) with (List.length A) by exact HA. apply firstn_exact. }
+    rewrite HfA.
+    set (Hd := firstn (N.to_nat hl) Y).
+    assert (HHd : List.length Hd = N.to_nat hl) by (unfold Hd; rewrite firstn_length; unfold blen in HbY; lia).
+    assert (HskY : skipn (N.to_nat hl) Y = List.concat Ms ++ tl0).
+    { unfold Y. rewrite <- HShl. rewrite (skipn_ref_set (cfS tscf) (cf_len_name tscf) T W HSin HokL HnW). rewrite HShl.
+      unfold W. rewrite skipn_app, <- HHd0, skipn_all, Nat.sub_diag. reflexivity. }
+    assert (Hsent : firstn (N.to_nat (cf_off + hl + T)) (A ++ Y) = A ++ Hd ++ List.concat Ms).
+    { rewrite firstn_app, HA. rewrite firstn_all2 by lia. f_equal.
+      replace (N.to_nat (cf_off + hl + T) - N.to_nat cf_off)%nat with (N.to_nat hl + N.to_nat T)%nat by lia.
+      rewrite <- (firstn_skipn (N.to_nat hl) Y) at 1. fold Hd. rewrite HskY.
+      rewrite firstn_app, HHd. rewrite firstn_all2 by lia. f_equal.
+      replace (N.to_nat hl + N.to_nat T - N.to_nat hl)%nat with (List.length (List.concat Ms)) by lia. apply firstn_exact. }
+    rewrite Hsent.
+    exists A, Hd, Ms, (A ++ Y). split; [reflexivity|]. split; [rewrite HA; lia|]. split; [rewrite HHd; lia|]. split; [exact HMs|].
+    assert (Hread : forall name rest, name_ok (cfS tscf) name = true -> ref_get (cfS tscf) name (Hd ++ rest) = ref_get (cfS tscf) name Y).
+    { intros name rest Hnm. rewrite (ref_get_app (cfS tscf) name Hd rest HSin Hnm) by (rewrite HShl; unfold blen; rewrite HHd; lia).
+      symmetry. rewrite <- (firstn_skipn (N.to_nat hl) Y). fold Hd. apply (ref_get_app (cfS tscf) name Hd _ HSin Hnm). rewrite HShl. unfold blen. rewrite HHd. lia. }
+    split; intros rest.
+    - rewrite (Hread _ rest HokS). unfold Y. rewrite (FieldOpsProofs.ref_get_other (cfS tscf) HSin _ _ T W HokS HokL Hne).
+      unfold W. rewrite (ref_get_app (cfS tscf) _ Hd0 _ HSin HokS) by (rewrite HShl; unfold blen; rewrite HHd0; lia).
+      rewrite <- (ref_get_app (cfS tscf) _ Hd0 (skipn (N.to_nat hl) Hb) HSin HokS) by (rewrite HShl; unfold blen; rewrite HHd0; lia).
+      unfold Hd0. rewrite firstn_skipn. unfold Hb, cf_hdr.
+      rewrite (ref_get_set_all (cfS tscf) _ _ HSin HokS (cf_init_sets_ok tscf seq))
+        by (rewrite HShl; unfold blen; rewrite app_length, skipn_length; pose proof (cf_canon_len tscf) as Hc; fold hl in Hc; unfold blen in HbS; fold hl; lia).
+      replace (last_write (cf_sub_name tscf) (cf_init_sets tscf seq)) with (@None N) by (destruct tscf; reflexivity).
+      rewrite (ref_get_app (cfS tscf) _ (cf_canon tscf) _ HSin HokS) by (rewrite HShl; unfold blen; pose proof (cf_canon_len tscf) as Hc; fold hl in Hc; lia).
+      destruct tscf; reflexivity.
+    - rewrite (Hread _ rest HokL). unfold Y. rewrite (FieldOpsProofs.ref_get_same (cfS tscf) HSin _ T W HokL) by (rewrite HShl, HbW; lia).
+      apply N.mod_small. destruct tscf; cbn; lia.
   Qed.
 End Tunnel.
